@@ -21,6 +21,8 @@ def render(op, variant):
     if k == "rollback":
         return None if variant % 3 == 2 else ("ROLLBACK" if variant % 3 == 0 else "rollback")
     if k == "insert":
+        if variant % 8 == 6:
+            return f"EXECUTEMANY:insert into c13_t values (%s)|{op[1]}"     # the same row through cursor.executemany
         if variant % 4 == 3:
             # the same single-row insert written as a MERGE (DML in several internal steps: it must stay inside the transaction like any other)
             return f"merge into c13_t using (select {op[1]} as id) as s on c13_t.id = s.id when not matched then insert (id) values (s.id)"
@@ -28,6 +30,8 @@ def render(op, variant):
     if k == "select":
         return "select id from c13_t"
     if k == "fail":
+        if variant % 5 == 4:
+            return "EXECUTEMANY:insert into c13_missing values (%s)|1"       # a failing executemany
         return FAILS[variant % len(FAILS)]
     raise ValueError(op)
 
@@ -48,7 +52,11 @@ def run_impl(nconn, hist):
                 (conns[c].commit if op[0] == "commit" else conns[c].rollback)()
                 obs.append([6])   # method form: no result to look at
                 continue
-            cur = curs[c][k].execute(sql)
+            if sql.startswith("EXECUTEMANY:"):
+                stmt, val = sql[len("EXECUTEMANY:"):].split("|")
+                cur = curs[c][k].executemany(stmt, [(int(val),)])
+            else:
+                cur = curs[c][k].execute(sql)
             rows = cur.fetchall()
             if op[0] == "select":
                 obs.append([0, sorted(r[0] for r in rows)])
@@ -75,7 +83,7 @@ OPCODE = {"begin": 0, "commit": 1, "rollback": 2, "insert": 3, "select": 4, "fai
 def enc(nconn, hist):
     # a failing statement that names an unknown database fails before the engine starts it (no snapshot): its own op in the model
     def code(op, v):
-        return 6 if op[0] == "fail" and "nodb." in FAILS[v % len(FAILS)] else OPCODE[op[0]]
+        return 6 if op[0] == "fail" and v % 5 != 4 and "nodb." in FAILS[v % len(FAILS)] else OPCODE[op[0]]
     return [nconn, [[c, code(op, v)] + ([op[1]] if op[0] == "insert" else []) for c, _k, op, v in hist]]
 
 
